@@ -37,6 +37,8 @@ OUTCOMES = {
     'n_event_report': ['ok', 'EHE'],
     'get_store': [0x0000, 0xB000, 0xA700, 'EHE'],
     'get_store2': [0x0000, 0xB000],
+    'user_n_action': ['x'],      # an application-defined MessageDispatcherSCP service next to StorageCommitment
+    'user_n_event': ['x'],
 }
 
 
@@ -51,6 +53,11 @@ def cases(tier, seed):
                 for pc in (PCS if tier == 'quick' else [1, 3, 5, 63, 127, 129, 253, 255]):
                     for ul in ((24,) if (mid + pc) % 3 and tier == 'quick' else (1, 2, 63, 64, 24)):
                         yield {'svc': svc, 'outcome': out, 'mid': mid, 'pc': pc, 'uidlen': ul}
+    # sessions: every ordered pair (triple in the thorough tier) of provider paths on one entity
+    reps = [('echo', 0), ('store', 0xB000), ('find', 'ok2'), ('move', 'ok2'), ('n_action', 'mixed'), ('n_event_report', 'ok'),
+            ('user_n_action', 'x'), ('user_n_event', 'x'), ('find', 'EHE'), ('n_action', 'EHE')]
+    for tup in itertools.product(range(len(reps)), repeat=2 if tier == 'quick' else 3):
+        yield {'seq': [{'svc': reps[i][0], 'outcome': reps[i][1], 'mid': 100 + 7 * k, 'pc': (1, 3, 5)[k], 'uidlen': 24} for k, i in enumerate(tup)]}
 
 
 class _SubAssoc(object):
@@ -161,6 +168,58 @@ def run_case(case):
     if 'stack' in case:
         from .. import svc_stack
         return svc_stack.run_case(case, 'c17:')
+    if 'seq' in case:
+        # a session: several requests served one after the other by ONE entity (same service objects, same process);
+        # every response is checked exactly as if the request had come first
+        sae = _make_sae()
+        viol, n = [], 0
+        for i, sub in enumerate(case['seq']):
+            res = _one(sub, sae)
+            n += res.get('count', {}).get('responses_checked', 0)
+            for s_, m in res['viol']:
+                viol.append((s_.replace('c17:', 'c17:session:', 1), 'request %d of session %s: %s' % (i + 1, [x['svc'] for x in case['seq']], m)))
+            if res['viol']:
+                break
+        return {'viol': viol, 'case': case if viol else None, 'key': ('seq',) + tuple((x['svc'], str(x['outcome'])) for x in case['seq']),
+                'count': {'responses_checked': n}}
+    return _one(case, None)
+
+
+PRIVATE = '1.2.840.10008.5.1.1.9999'
+
+
+def _make_sae():
+    from pynetdicom2 import sopclass, dimsemessages
+
+    class UserSvc(sopclass.MessageDispatcherSCP):
+        """An application-defined dispatcher-based provider next to the library's StorageCommitment."""
+        sop_classes = [PRIVATE]
+
+        def n_action(self, asce, ctx, msg):
+            rsp = dimsemessages.NActionRSPMessage()
+            rsp.message_id_being_responded_to = msg.message_id
+            rsp.action_type_id = 7
+            rsp.sop_class_uid = ctx.sop_class
+            rsp.affected_sop_instance_uid = msg.requested_sop_instance_uid
+            rsp.status = 0x0213
+            asce.send(rsp, ctx.id)
+
+        def n_event_report(self, asce, ctx, msg):
+            rsp = dimsemessages.NEventReportRSPMessage()
+            rsp.message_id_being_responded_to = msg.message_id
+            rsp.sop_class_uid = ctx.sop_class
+            rsp.event_type_id = msg.event_type_id
+            rsp.affected_sop_instance_uid = msg.affected_sop_instance_uid
+            rsp.status = 0x0211
+            asce.send(rsp, ctx.id)
+    SvcAE = _ae_class()
+    sae = assoc.make_ae('SCP', [TS], 65536, [sopclass.verification_scp, sopclass.storage_scp, sopclass.qr_find_scp,
+                                             sopclass.qr_move_scp, sopclass.StorageCommitment(), UserSvc()], cls=SvcAE)
+    sae.vp_cls = SvcAE
+    return sae
+
+
+def _one(case, sae):
     from pynetdicom2 import sopclass, applicationentity, statuses, exceptions
     from ..pdugen import uid_of_len
     svc, out, mid, pc = case['svc'], case['outcome'], case['mid'], case['pc']
@@ -168,12 +227,12 @@ def run_case(case):
     sig = 'c17:%s' % svc
     where = common.short(case, 200)
     inst = uid_of_len(case['uidlen'], 3)
-    SvcAE = _ae_class()
-    sae = assoc.make_ae('SCP', [TS], 65536, [sopclass.verification_scp, sopclass.storage_scp, sopclass.qr_find_scp,
-                                             sopclass.qr_move_scp, sopclass.StorageCommitment()], cls=SvcAE)
+    if sae is None:
+        sae = _make_sae()
+    SvcAE = sae.vp_cls
     sae.outcome, sae.sublog = out, []
     sop = {'echo': VERIF, 'store': CT, 'find': FIND, 'move': MOVE, 'n_action': COMMIT, 'n_event_report': COMMIT, 'get_store': CT,
-           'get_store2': CT}[svc]
+           'get_store2': CT, 'user_n_action': PRIVATE, 'user_n_event': PRIVATE}[svc]
     MR = '1.2.840.10008.5.1.4.1.1.4'
     # client side (for get_store the *client* is the entity under test)
     cae = SvcAE.__new__(SvcAE)
@@ -259,6 +318,12 @@ def run_case(case):
                 sae.nested = nested
         elif svc == 'move':
             req = msggen.make('CMoveRQMessage', sop_class=MOVE, msg_id=mid, data_set=dsgen.enc(dsgen.make('query'), TS))
+        elif svc == 'user_n_action':
+            req = msggen.make('NActionRQMessage', sop_class=PRIVATE, sop_inst='1.2.840.10008.1.20.1.1', msg_id=mid,
+                              data_set=dsgen.enc(_commit_ds(), TS))
+        elif svc == 'user_n_event':
+            req = msggen.make('NEventReportRQMessage', sop_class=PRIVATE, sop_inst='1.2.840.10008.1.20.1.1', msg_id=mid,
+                              data_set=dsgen.enc(_commit_ds(), TS))
         elif svc == 'n_action':
             req = msggen.make('NActionRQMessage', sop_class=COMMIT, sop_inst='1.2.840.10008.1.20.1.1', msg_id=mid,
                               data_set=dsgen.enc(_commit_ds(), TS))
@@ -277,6 +342,10 @@ def run_case(case):
         exp_pc = pc
         exp_status = {'echo': 0x0110, 'store': 0xC000, 'n_action': 0x0110, 'n_event_report': 0x0110}.get(svc) if str(out).startswith('EHE') else (
             out if isinstance(out, int) else 0x0000)
+        if svc == 'user_n_action':
+            exp_status = 0x0213
+        if svc == 'user_n_event':
+            exp_status = 0x0211
         if escaped is not None:
             viol.append((sig + ':handler-error-escapes:%s' % (type(escaped).__name__,),
                          'service let %r escape (outcome %s); %d responses had been sent (%s)' % (escaped, out, len(rsps), where)))
@@ -303,7 +372,7 @@ def run_case(case):
             viol.append((sig + ':message-id', 'MessageIDBeingRespondedTo=%r, request MessageID=%d (%s)' % (ref_cmd.value(elems, 0x0120), mid, where)))
         if ref_cmd.value(elems, 0x0002) != sop:
             viol.append((sig + ':sop-class', 'AffectedSOPClassUID=%r, request SOP class %s (%s)' % (ref_cmd.value(elems, 0x0002), sop, where)))
-        if svc in ('store', 'get_store', 'n_action', 'n_event_report'):
+        if svc in ('store', 'get_store', 'n_action', 'n_event_report', 'user_n_action', 'user_n_event'):
             want = inst if svc in ('store', 'get_store') else '1.2.840.10008.1.20.1.1'
             if ref_cmd.value(elems, 0x1000) != want:
                 viol.append((sig + ':sop-instance', 'AffectedSOPInstanceUID=%r, request instance %s (%s)' % (ref_cmd.value(elems, 0x1000), want, where)))
